@@ -84,7 +84,8 @@ func genC05(repo string) (string, error) {
 			"Initialize", "WriteTSO", "compareAndSetMaxSuffix", "EnableAllocatorLeader", "CampaignAllocatorLeader",
 			"GetClusterDCLocationsFromEtcd", "IsLeader", "getOrCreateLocalTSOSuffix", "getMaxLocalTSOSuffix"),
 		Assigns: set("maxTSO", "maxSuffix", "Suffix"), Conds: true, Branches: true}
-	for _, fn := range []string{"GetMaxLocalTSO", "campaignAllocatorLeader", "ClusterDCLocationChecker", "compareAndSetMaxSuffix", "GetSuffixBits"} {
+	jopt.Calls["checkClusterDCLocations"] = true
+	for _, fn := range []string{"GetMaxLocalTSO", "campaignAllocatorLeader", "ClusterDCLocationChecker", "RefreshClusterDCLocations", "checkClusterDCLocations", "compareAndSetMaxSuffix", "GetSuffixBits"} {
 		if err := o.skeleton(am, "AllocatorManager", fn, "skel_am_"+fn, jopt); err != nil {
 			return "", err
 		}
